@@ -27,7 +27,7 @@ RULE = (
 ASSUMPTIONS = [
     "vk/mcdriver.py calls the real binding / message handlers of esp_menuconfig/app.py on a stub application (fake widgets around the real MenuOptionList.populate / current_node, dialogs answered at once by the action's arguments with the submit logic of the real screens); the Textual event loop, key dispatch and screen composition are not in the loop",
 ]
-BUDGET = {"quick": {"examples": 4800}, "thorough": {"examples": 100000, "deadline_s": 1500}}
+BUDGET = {"quick": {"examples": 4800}, "thorough": {"examples": 100000, "deadline_s": 900}}
 
 CFG = gen.cfg(max_syms=12, p_menu=22, p_menuconfig=20, p_choice=14, p_warning=10, p_prompt=90, p_keep_empty_menu=60)
 
@@ -124,6 +124,21 @@ def _option_lines(text):
     return [ln for ln in (text or "").split("\n") if ln.startswith("CONFIG_") or (ln.startswith("# CONFIG_") and ln.endswith(" is not set"))]
 
 
+def _empty_numeric_cause(k, text) -> str:
+    """'|empty-numeric-value' when the file holds an UNMARKED 'CONFIG_X=' of an int / hex / float option: the root cause of
+    the open C02 / C08 finding (an option without effective value that carries an ineffective user value is written
+    unmarked with an empty value, which the loader refuses), named in the signature so that nothing else hides behind it."""
+    prev = ""
+    for ln in (text or "").split("\n"):
+        if ln.startswith("CONFIG_") and ln.endswith("=") and prev.strip() != "# default:":
+            s = k.syms.get(ln[len("CONFIG_") : -1])
+            if s is not None and s.orig_type in (kc.INT, kc.HEX, kc.FLOAT):
+                return "|empty-numeric-value"
+        if ln.strip():
+            prev = ln
+    return ""
+
+
 def clean_invariant(drv, res: Result, where: str, reload_fn=None) -> bool:
     st = drv.state
     if st.needs_save():
@@ -184,7 +199,7 @@ def check(case) -> Result:
 
             try:
                 if case["initial_kind"] == "tool" and st.needs_save():
-                    res.fail("dirty-at-startup|tool-written-file", "needs_save() is True right after loading a file the tool wrote for this tree")
+                    res.fail("dirty-at-startup|tool-written-file" + _empty_numeric_cause(k, _read(st.conf_filename)), "needs_save() is True right after loading a file the tool wrote for this tree")
                     return res
                 if not clean_invariant(drv, res, "startup", reload_fn):
                     return res
@@ -204,7 +219,7 @@ def check(case) -> Result:
                             res.nontrivial = True
                     if out == "saved":
                         if st.needs_save():
-                            res.fail("dirty-after-save", f"{where}: needs_save() is still True immediately after a successful save")
+                            res.fail("dirty-after-save" + _empty_numeric_cause(k, _read(st.conf_filename)), f"{where}: needs_save() is still True immediately after a successful save")
                             return res
                         if edited:
                             saved_after_edit = True
